@@ -91,9 +91,14 @@ static uint64_t splitmix64(void)
  * cycle. Pulls a few samples from the generator to get rid of any initial
  * transient.
  */
+/* Cached random bits for cmb_random_flip, discarded when (re)seeding */
+static CMB_THREAD_LOCAL uint64_t flip_bits = 0u;
+static CMB_THREAD_LOCAL uint8_t flip_bitpos = 0u;
+
 void cmb_random_initialize(const uint64_t seed)
 {
     initial_seed = seed;
+    flip_bitpos = 0u;
     splitmix_initialize(seed);
     prng_state.a = splitmix64();
     prng_state.b = splitmix64();
@@ -522,15 +527,12 @@ double cmb_random_PERT_mod(const double min,
 /* Simple flip of a fair unbiased coin, caching bits for efficiency */
 int cmb_random_flip(void)
 {
-    static CMB_THREAD_LOCAL uint64_t bits;
-    static CMB_THREAD_LOCAL uint8_t bitpos = 0;
-
-    if (bitpos == 0) {
-        bits = cmb_random_sfc64();
-        bitpos = 64;
+    if (flip_bitpos == 0) {
+        flip_bits = cmb_random_sfc64();
+        flip_bitpos = 64;
     }
 
-    return ((bits >> --bitpos) & 1) ? 1 : 0;
+    return ((flip_bits >> --flip_bitpos) & 1) ? 1 : 0;
 }
 
 /*
